@@ -81,6 +81,7 @@ type shaper struct {
 	depth   int
 	exits   []*ssa.BasicBlock // exit blocks of the loops being walked (targets of break)
 	headers []*ssa.BasicBlock // headers of the loops being walked (targets of continue)
+	inLoop  bool              // an inlined helper whose call sits in a loop body of its caller
 }
 
 func (s *shaper) loopHeader(b *ssa.BasicBlock) bool {
@@ -360,7 +361,18 @@ func (s *shaper) inlineHelper(call ssa.CallInstruction, f *ssa.Function) (tok, b
 	cc := call.Common()
 	for i, a := range cc.Args {
 		if s.streamArg(a) && i < len(f.Params) {
-			switch f.Params[i].Type().Underlying().(type) {
+			pt := f.Params[i].Type().Underlying()
+			if ptr, isPtr := pt.(*types.Pointer); isPtr {
+				// a pointer receiver of a codec type of the repository that holds the stream
+				// (q *qiDecoder) is treated like the value receiver: its methods are the
+				// element codecs, not moved-out pieces of one caller
+				if nt, isNamed := ptr.Elem().(*types.Named); isNamed && nt.Obj().Pkg() != nil && strings.HasPrefix(nt.Obj().Pkg().Path(), core.Module) {
+					if st, isSt := nt.Underlying().(*types.Struct); isSt {
+						pt = st
+					}
+				}
+			}
+			switch pt.(type) {
 			case *types.Interface, *types.Pointer:
 				param = f.Params[i]
 			case *types.Struct:
@@ -381,7 +393,7 @@ func (s *shaper) inlineHelper(call ssa.CallInstruction, f *ssa.Function) (tok, b
 	if param == nil {
 		return tok{}, false
 	}
-	ns := &shaper{c: s.c, stream: param, depth: s.depth + 1}
+	ns := &shaper{c: s.c, stream: param, depth: s.depth + 1, inLoop: len(s.headers) > 0 || s.inLoop}
 	kids := flatten(ns.walkFn(f))
 	if ns.problem != "" {
 		return tok{}, false
@@ -632,7 +644,9 @@ func (s *shaper) seq(start, stop *ssa.BasicBlock, seen map[*ssa.BasicBlock]bool)
 				}
 			}
 			// an early success return from inside a loop body that touches the stream no more
-			if len(s.headers) > 0 {
+			// (also when the loop body was moved into a helper: `return false, nil` there is
+			// the `break` of the caller's loop)
+			if len(s.headers) > 0 || s.inLoop {
 				if s.returnsQuietly(cur.Succs[0]) && !s.returnsQuietly(cur.Succs[1]) && canSucceed(cur.Succs[0]) {
 					cur = cur.Succs[1]
 					continue
